@@ -18,7 +18,7 @@
 //   * when the maximum duration has passed (timer fires) and no progress is
 //     possible, the future ends with an error.
 
-const TX: usize = 3; // bytes an endpoint has to send (bound)
+const TX: usize = 2; // bytes an endpoint has to send (bound)
 const RX: usize = 8;
 
 pub(crate) struct Ep {
@@ -211,6 +211,7 @@ fn forward_data_moves_exactly_what_it_reports() {
         }
     }
     kani::cover!(matches!(r, Poll::Ready(Ok(2))));
+    kani::cover!(matches!(r, Poll::Pending));
     kani::cover!(matches!(r, Poll::Ready(Ok(0))));
     std::mem::forget(r);
 }
@@ -231,19 +232,19 @@ fn circuit(max_bytes: u64, already: u64) -> CopyFuture<Ep, Ep> {
     }
 }
 
-/// CopyFuture::poll, up to two polls, every chunking/readiness schedule of two
-/// endpoints with <= 3 bytes each behind 2-byte read buffers
+/// CopyFuture::poll, one poll from the start of a circuit, every chunking/readiness
+/// schedule of two endpoints with <= 2 bytes each behind 2-byte read buffers
 #[kani::proof]
-#[kani::unwind(9)]
+#[kani::unwind(7)]
 #[kani::stub(<futures_timer::Delay as std::future::Future>::poll, mock_delay_poll)]
 fn copy_future_forwards_prefixes_and_enforces_byte_limit() {
     let max: u64 = kani::any();
-    kani::assume(max >= 1 && max <= 4);
+    kani::assume(max >= 1 && max <= 3);
     unsafe { TIMER_FIRES = kani::any() };
     let mut f = circuit(max, 0);
     let mut polls = 0;
     let mut last = Poll::Pending;
-    while polls < 2 {
+    while polls < 1 {
         last = with_cx(|cx| Pin::new(&mut f).poll(cx));
         let (a, b) = (f.src.get_ref(), f.dst.get_ref());
         // faithful forwarding, both directions, at every observation point
@@ -271,7 +272,7 @@ fn copy_future_forwards_prefixes_and_enforces_byte_limit() {
         }
         polls += 1;
     }
-    kani::cover!(matches!(last, Poll::Ready(Ok(()))) && f.bytes_sent == 4);
+    kani::cover!(matches!(last, Poll::Ready(Ok(()))) && f.bytes_sent == 3);
     kani::cover!(matches!(last, Poll::Ready(Err(_))) && f.bytes_sent > max);
     std::mem::forget(last);
     std::mem::forget(f);
@@ -279,13 +280,24 @@ fn copy_future_forwards_prefixes_and_enforces_byte_limit() {
 
 /// Vacuity canary: must FAIL (circuits do complete).
 #[kani::proof]
-#[kani::unwind(9)]
+#[kani::unwind(7)]
 #[kani::stub(<futures_timer::Delay as std::future::Future>::poll, mock_delay_poll)]
 fn canary_copy_future_never_completes() {
     unsafe { TIMER_FIRES = false };
-    let mut f = circuit(4, 0);
+    let mut f = circuit(3, 0);
     let r = with_cx(|cx| Pin::new(&mut f).poll(cx));
     assert!(!matches!(r, Poll::Ready(Ok(()))));
     std::mem::forget(r);
     std::mem::forget(f);
+}
+
+/// Vacuity canary for the forward_data contract: must FAIL (data does move).
+#[kani::proof]
+#[kani::unwind(5)]
+fn canary_forward_data_never_progresses() {
+    let mut src = Ep::any();
+    let mut dst = Ep::any();
+    let r = with_cx(|cx| forward_data(&mut src, &mut dst, cx));
+    assert!(!matches!(r, Poll::Ready(Ok(n)) if n > 0));
+    std::mem::forget(r);
 }
